@@ -117,7 +117,7 @@ def check_table(ctx, pt, sts, shifted, tag, want, Qr_known=None):
         if shifted:
             ctx.require(h.disj(h.close(x, 0.0, EQ) for x in Hn), f"C05 {tag}: net curve touches zero")
         conds = [h.close(dT[k], T[k - 1] - T[k], EQ) for k in range(1, n)]
-        conds += [T[k - 1] - T[k] > 1e-6 for k in range(1, n)]
+        conds += [T[k - 1] - T[k] > 0 for k in range(1, n)]
         for cp, dh, hc in ((PT.CP_HOT.value, PT.DELTA_H_HOT.value, Hh), (PT.CP_COLD.value, PT.DELTA_H_COLD.value, Hc),
                            (PT.CP_NET.value, PT.DELTA_H_NET.value, Hn)):
             CP, DH = h.col(pt, cp), h.col(pt, dh)
